@@ -939,6 +939,13 @@ func (a *effAnalysis) origin1(v ssa.Value) Origin {
 			if l.Root == "a" || l.Root == "o" {
 				// a value loaded from a local cell or an unknown object
 				if al, ok := x.X.(*ssa.Alloc); ok {
+					// what the cell certainly holds where it is read (a named result reassigned on the way), else the
+					// common origin of everything stored into it
+					if !isAggregate(al) {
+						if st := cellStoreBefore(al, x); st != nil {
+							return a.origin(st.Val)
+						}
+					}
 					return a.cellOrigin(al)
 				}
 				return Origin{Root: l.Root}
